@@ -139,7 +139,13 @@ func (r *Record) Bin() int {
 	if r.Flags&(Unmapped|MateUnmapped) == Unmapped|MateUnmapped {
 		return 4680 // reg2bin(-1, 0)
 	}
-	return int(internal.BinFor(r.Pos, r.End()))
+	end := r.End()
+	if end <= r.Pos {
+		// An alignment whose CIGAR consumes no reference
+		// is treated as having length one.
+		end = r.Pos + 1
+	}
+	return int(internal.BinFor(r.Pos, end))
 }
 
 // Len returns the length of the alignment.
